@@ -1,0 +1,8 @@
+// Copyright 2024 RisingLight Project Authors. Licensed under Apache-2.0.
+
+//! Entry points for the external verification harness.
+//!
+//! Everything in here is compiled only with the cargo feature `verif` and only *adds* ways to
+//! reach existing code; it never changes behaviour.
+
+pub use crate::storage::verif as storage;
